@@ -302,6 +302,10 @@ func runC12(c *Ctx) {
 		c.Guarded(fn, "IncrementProposerPriority", inc, G("no updates, or UpdateWithChangeSet error == nil", IsNil(`^call:`+vsT+`\.UpdateWithChangeSet\(call:`+vsT+`\.Copy\(state\.NextValidators\), validatorUpdates\)$`), Cmp(`^call:len\(validatorUpdates\)$`, "<=", `^const:0$`)))
 	}
 	validatorSetRoles(c)
+	// the rotation survives a restart only if every save writes the next set's priorities (C14), and the change set is
+	// computed against the set it is applied to (C06)
+	nextSetSavedRule(c)
+	c06Validators(c)
 	// a reloaded set names the proposer that was stored (not one re-derived from the priorities, which the elected
 	// proposer has already paid for), and a proposal is judged against the proposer of the set advanced to this round
 	for _, sp := range c14Codecs {
